@@ -183,6 +183,7 @@ type c08Client struct {
 	cur     *c08Conn
 	zombies []*c08Conn        // abandoned by the client, not yet cleaned up by their node
 	closed  map[string]string // connID -> how it ended (one map shared by all clients of a history)
+	active  bool              // took part in this history (a provisioned but idle identity is not looked up)
 	lost    []*c08Conn        // connections this identity lost to another client's handshake on them (still open)
 	cloudDirty string         // cloud-control view not judged (see judgeCloud) until the next keep-alive on cur
 	unsure  string            // the node dropped cur on its own and the harness has not yet played the adapter cleanup: no verdicts
@@ -204,6 +205,7 @@ type c08World struct {
 	lastCl  int
 	herr    string
 	ctx     context.Context
+	noSweepUnregister bool // observed: the sweeper's close leaves the connection record behind
 	spareID int64  // a provisioned second identity reused across the histories of a world
 	spareSecret string
 }
@@ -322,6 +324,7 @@ func (w *c08World) connect(cl *c08Client, node int) bool {
 	cl.unsure = ""
 	cl.cleaned = 0
 	cl.cloudDirty = ""
+	cl.active = true
 	cl.lastNode = node
 	w.ev(cl, "c"+strings.ToUpper(string(rune('a'+node))), fmt.Sprintf("connect@%s=%s", n.NodeID, mc.ConnID))
 	w.run.Count("handshakes", 1)
@@ -429,7 +432,7 @@ func (w *c08World) takeover(cl, by *c08Client) bool {
 	c.hs = c08Span{c0, r0}
 	c.lastKA = c.hs
 	c.chain = true
-	by.cur, by.cleaned, by.lastNode, by.cloudDirty = c, 0, c.node, ""
+	by.cur, by.cleaned, by.lastNode, by.cloudDirty, by.active = c, 0, c.node, "", true
 	cl.cur = nil
 	cl.lost = append(cl.lost, c)
 	// clean tree: the replaced identity's runtime state is neither rewritten nor removed
@@ -452,10 +455,10 @@ func (w *c08World) reloginZombie(cl *c08Client) bool {
 	ok, err := z.mc.Login(cl.id, cl.secret, "control")
 	r0 := time.Now()
 	if !ok {
-		if _, alive := w.nodes[z.node].SM.GetConnection(z.id); !alive {
-			return false // swept meanwhile; noteSweeps will record it
-		}
-		w.harnessError("re-login on abandoned connection refused: %v", err)
+		// swept meanwhile, or its node already closed its stream when the client
+		// re-registered there through a newer connection: nothing to re-login on
+		_ = err
+		w.run.Count("relogin_on_abandoned_refused", 1)
 		return false
 	}
 	cl.zombies = cl.zombies[:len(cl.zombies)-1]
@@ -538,6 +541,25 @@ func (w *c08World) sweepCur(cl *c08Client) bool {
 			return false
 		}
 		time.Sleep(500 * time.Microsecond)
+	}
+	// let the sweeper's own CloseConnection finish (its last store operation removes the
+	// connection record) before the history goes on: its unregistration is a
+	// read-then-delete, and the untimed histories must not race the client's next
+	// handshake against it by accident. A tree that never unregisters here is given
+	// 100 ms once per world.
+	if !w.noSweepUnregister {
+		limit := time.Now().Add(100 * time.Millisecond)
+		for {
+			if _, err := n.ConnSt.GetConnectionState(w.ctx, c.id); err != nil {
+				break
+			}
+			if time.Now().After(limit) {
+				w.noSweepUnregister = true
+				w.run.Count("sweep_left_connection_record", 1)
+				break
+			}
+			time.Sleep(200 * time.Microsecond)
+		}
 	}
 	c.mc.CloseByPeer()
 	cl.closed[c.id] = "swept"
@@ -760,7 +782,7 @@ func (w *c08World) check() {
 	}
 	cloud := make([][]cloudAnswer, len(w.clients))
 	for ci, cl := range w.clients {
-		if cl.id == 0 {
+		if cl.id == 0 || !cl.active {
 			continue
 		}
 		for ni := range w.nodes {
@@ -1085,9 +1107,10 @@ func TestVerifC08Exhaustive(t *testing.T) {
 		}
 	}
 	run.Exhaustive(true)
-	c08Floors(run, "reconnect_then_late_cleanup", "reconnect_other_node", "zombie_heartbeat_while_current_elsewhere", "last_conn_swept")
+	c08Floors(run, "reconnect_then_late_cleanup", "reconnect_other_node", "zombie_heartbeat_while_current_elsewhere", "last_conn_swept", "identity_changes")
 	run.Floor("lookups_notconnected_ok", 100)
 	run.Floor("closes_of_current", 50)
+	run.Floor("cloud_found_ok", 1000)
 }
 
 // c08Applicable replays the abstract client state over seq and says whether sym can
@@ -1164,9 +1187,10 @@ func TestVerifC08Random(t *testing.T) {
 			t.Fatalf("c08: harness error on backend %s: %s", be, herr)
 		}
 	}
-	c08Floors(run, "reconnect_then_late_cleanup", "reconnect_other_node", "zombie_heartbeat_while_current_elsewhere", "last_conn_swept")
+	c08Floors(run, "reconnect_then_late_cleanup", "reconnect_other_node", "zombie_heartbeat_while_current_elsewhere", "last_conn_swept", "identity_changes", "relogins_on_abandoned")
 	run.Floor("lookups_notconnected_ok", 100)
 	run.Floor("heartbeats", 100)
+	run.Floor("cloud_found_ok", 1000)
 }
 
 func c08Pick(r *rand.Rand, cl *c08Client) string {
